@@ -432,6 +432,9 @@ func c12R2(c *Ctx) {
 				continue
 			}
 			result := p.Vals[0]
+			if r := c.view(fd).asRange(loop); r != nil {
+				loop = r
+			}
 			over := loop.Over
 			if loop.Range == nil || !(sameTerm(over, cp.Assert) || sameTerm(over, TProj{cp.Assert, 0})) {
 				ob.Fail("the loop does not range over the operand")
